@@ -1,5 +1,6 @@
 """C16 — '?' axes are per-leaf-position axes of exactly one structured PyTree."""
 import json
+import typing
 
 import gen_prog
 import impl_prog
@@ -14,6 +15,7 @@ RULE = (
     "one decorated call, L containing '?n' / '*?v' / '?n ?m' / 'b ?n' alone or inside Union, tuple and "
     "structure-less PyTree, per-leaf sizes chosen equal / different at the same and at different positions, "
     "a plain axis of the same name bound before or after, '?' outside any structured PyTree and beneath two; "
+    "the same array OBJECT at several leaf positions; the probes again after four kinds of raising checks; "
     "non-trivial = >=2 leaves and >=2 trees; distinct by (leaf type, trees, sizes)"
 )
 TRUSTED = ["Lean 4 kernel", "harness/extract.py: recognition of the set/clear protocol of the two flags", "jax.tree_util flatten order"]
@@ -117,6 +119,7 @@ def run(tier, seed, out, drv, facts):
         out.case((name, json.dumps(t1), json.dumps(t2), style), k >= 2, sample={"leaf_type": name, "tree1": t1, "tree2": t2, "style": style, "observed": [o.get("v") for o in got if "v" in o]})
         for v in progcheck.verdicts(got):
             out.count("verdict_" + v)
+    direct_cases(out)
     # errors: outside a structured PyTree, beneath two
     q = arr_type("?n")
     cases = [
@@ -133,6 +136,89 @@ def run(tier, seed, out, drv, facts):
             out.case(("error-case", nm, wrap_), True, sample={"case": nm, "observed": progcheck.verdicts(got)})
 
 
+def direct_cases(out):
+    """cases the JSON program language cannot express: the SAME array object at several leaf positions, and
+    the state of the '?' label after a check that raised"""
+    import threading
+
+    import jaxtyping
+    from jaxtyping import Float, PyTree, jaxtyped
+
+    Duck = impl_prog.Duck
+    Q = PyTree[Float[Duck, "?n"], "T"]
+    QV = PyTree[Float[Duck, "*?v"], "T"]
+    w, a3, a4, a7 = Duck((3,)), Duck((3,)), Duck((4,)), Duck((7,))
+
+    def seq(*pairs):
+        res = []
+        with jaxtyped("context"):
+            for x, t in pairs:
+                res.append(impl_prog.impl.check_once(x, t))
+        return res
+
+    shared = [
+        ("same object at two positions, then per-position sizes differ at position 1", [((w, w), Q), ((a3, a4), Q)], ["T", "F"]),
+        ("per-position sizes first, then the same object twice", [((a3, a4), Q), ((w, w), Q)], ["T", "F"]),
+        ("same object twice agrees with equal sizes", [((w, w), Q), ((a3, Duck((3,))), Q)], ["T", "T"]),
+        ("dict with a shared leaf", [({"a": w, "b": w}, Q), ({"a": a3, "b": a7}, Q)], ["T", "F"]),
+        ("shared leaf, multi-axis '?'", [((w, w), QV), ((a3, a4), QV)], ["T", "F"]),
+        ("shared leaf at three positions", [([w, (w, w)], Q), ([a3, (a3, a4)], Q)], ["T", "F"]),
+    ]
+    for name, pairs, want in shared:
+        got = seq(*pairs)
+        out.case(("shared-object", name), True, sample={"case": name, "verdicts": got})
+        if got != want:
+            out.violation("shared-object:" + name.split(",")[0].replace(" ", "-")[:40], f"{name}: verdicts {got} but every leaf POSITION has its own '?n' axis, so they must be {want}", {"direct": "shared-object"})
+
+    class Boom(Exception):
+        pass
+
+    class RaisingShape:
+        dtype = "float32"
+
+        @property
+        def shape(self):
+            raise Boom("shape")
+
+    faults = {
+        "unbound-symbolic-in-leaf": lambda: isinstance((a3,), PyTree[Float[Duck, "?n unbound_axis+1"], "S"]),
+        "nested-structured-pytrees": lambda: isinstance(((a3,),), PyTree[PyTree[Float[Duck, "?n"], "S"], "T"]),
+        "leaf-attribute-raises": lambda: isinstance((RaisingShape(),), PyTree[Float[typing.Any, "?n"], "S"]),
+        "base-exception-from-leaf": lambda: isinstance((impl_prog.opaque_cls("raises")(),), PyTree[impl_prog.user_cls([], {"raises": "BASEEXC"}), "S"]),
+    }
+
+    def probes():
+        return {
+            "structured PyTree with '?' axes, consistent": seq(((a3, a4), Q), ((Duck((3,)), Duck((4,))), Q)),
+            "structured PyTree with '?' axes, inconsistent": seq(((a3, a4), Q), ((a3, a7), Q)),
+            "'?' outside any PyTree": [impl_prog.impl.check_once(a3, Float[Duck, "?n"])],
+            "'?' inside a structure-less PyTree": [impl_prog.impl.check_once((a3,), PyTree[Float[Duck, "?n"]])],
+        }
+
+    for fname, fault in faults.items():
+        box = {}
+
+        def scenario():
+            box["before"] = probes()
+            try:
+                fault()
+                box["fault"] = "returned"
+            except BaseException as e:  # noqa: BLE001
+                box["fault"] = type(e).__name__
+            box["after"] = probes()
+
+        th = threading.Thread(target=scenario)
+        th.start()
+        th.join(120)
+        out.case(("after-fault", fname), True, sample={"fault": fname, "fault_outcome": box.get("fault"), "after": box.get("after")})
+        if box.get("before") != box.get("after"):
+            k = next(k for k in box["before"] if box["before"][k] != box["after"].get(k))
+            out.violation(f"after-fault:{fname}", f"after an earlier check ended with {box.get('fault')} ({fname}), '{k}' gives {box['after'].get(k)} instead of {box['before'][k]}", {"direct": "after-fault"})
+
+
 def replay(rep, out, drv, facts):
+    if "direct" in rep:
+        direct_cases(out)
+        return
     progcheck.compare_program(out, drv, facts, rep["program"], "replay", as_violation=as_violation)
     out.case("replay", True, sample=rep["program"])
